@@ -44,6 +44,7 @@ type limbState struct {
 	panics  bool
 	unsup   []string
 	dropped []string
+	zero    map[string]bool // input words known to be zero on this path ("if c.Hi == 0 { fast path }")
 }
 
 func (s *limbState) fork() *limbState {
@@ -62,6 +63,12 @@ func (s *limbState) fork() *limbState {
 	n.pre = append([]string{}, s.pre...)
 	n.unsup = append([]string{}, s.unsup...)
 	n.dropped = append([]string{}, s.dropped...)
+	if len(s.zero) > 0 {
+		n.zero = map[string]bool{}
+		for k := range s.zero {
+			n.zero[k] = true
+		}
+	}
 	return n
 }
 
@@ -343,6 +350,18 @@ func (li *limbInterp) assume(cond ast.Expr, truth bool, s *limbState) {
 	case be.Op == token.LAND && truth, be.Op == token.LOR && !truth:
 		li.assume(be.X, truth, s)
 		li.assume(be.Y, truth, s)
+	case be.Op == token.EQL && truth, be.Op == token.NEQ && !truth:
+		x, y := li.eval(be.X, s, ""), li.eval(be.Y, s, "")
+		for _, pr := range [][2]limbVal{{x, y}, {y, x}} {
+			if pr[0].P != nil && pr[1].P != nil && !pr[0].IsBool && !pr[1].IsBool && len(pr[1].P) == 0 {
+				if v, ok := pr[0].P.singleVar(); ok {
+					if s.zero == nil {
+						s.zero = map[string]bool{}
+					}
+					s.zero[v] = true
+				}
+			}
+		}
 	case be.Op == token.LSS && truth:
 		s.lt = append(s.lt, ltFact{li.eval(be.X, s, "").P, li.eval(be.Y, s, "").P})
 	case be.Op == token.GTR && truth:
